@@ -282,7 +282,7 @@ class Hub:
         self.map_state = None
         self.maps = []            # per map: {"fn":..., "placement": {slot: [tasks]}}
         self.mtimes = mtimes if mtimes is not None else {}
-        self.clock = int(max([1_000_000_000] + [int(v) for v in self.mtimes.values()]))
+        self.clock = int(max([4_000_000_000] + [int(v) for v in self.mtimes.values()]))
         self.probes = {}
         self.extra_pids = []
 
